@@ -6,6 +6,9 @@ Q, T = "quick", "thorough"
 INV_ASSUME = "pre-state = arbitrary storage satisfying the representation invariant Inv (DESIGN §3), loaded through cfg(gecs_verif) hooks"
 NOOVF = "generation/version == u32::MAX pre-states excluded here (decided by the C08/C10 overflow harnesses)"
 ISSUED = "probed handles have position < capacity (every issued handle; forged ones are C03)"
+SYMCAP_ALLOWED = (("dereference failure: pointer invalid", "std::slice::from_raw_parts"),)   # the capacity field deliberately exceeds the allocation: std's validity check of the `&[Slot]` of `capacity` elements the storage forms is exempt in the symcap harnesses only
+SYMCAP_ASSUME = "symcap harnesses: the validity check std performs when the storage forms a slice of `capacity` slots is exempt (the field deliberately exceeds the real allocation of N cells); every element access stays below N and is checked"
+HIST_ASSUME = ("public API only; histories of 4 and more operations exhaust memory in CBMC (measured: > 16 GB after 12 min) and are outside",)
 
 
 def J(h, tier=Q, cost=60, **kw):
@@ -58,6 +61,8 @@ def c01():
         # features) — a wrapped generation would make the FIRST handle ever issued for that position resolve again
         J("c08_overflow_slot_typed_foo_3", Q, 60, what="C01 at the generation boundary: releasing a position whose generation is u32::MAX panics instead of wrapping (a wrap would let a destroyed handle resolve again)", bounds=b, assumes=(INV_ASSUME,), expect_fail=EXPECT_OVERFLOW),
         J("c08_overflow_arch_typed_foo_3", Q, 60, what="same for the archetype version (direct handles)", bounds=b, assumes=(INV_ASSUME,), expect_fail=EXPECT_OVERFLOW),
+        J("hist_c2_l3", Q, 120, what="bounded public-API history (no state-writing hooks): 3 symbolic operations from with_capacity(2); every handle issued so far probed after every step; the final state satisfies Inv (reachable states are among the step harnesses' pre-states)", bounds="capacity 2, 3 operations (create / create_within_capacity / destroy of any issued handle by typed or dynamic key)", assumes=HIST_ASSUME),
+        J("hist_grow_c1_l3", T, 700, what="same with growth: 3 symbolic operations from with_capacity(1), create may grow", bounds="capacity 1 growing to 4, 3 operations", assumes=HIST_ASSUME, timeout=3000),
     ]
     return jobs
 
@@ -89,6 +94,8 @@ def c02():
         j("c02_write_all_foo_2", T, 300, "all write x read paths, 1 column"),
         j("c02_write_all_other_2", T, 300, "all write x read paths, ArchOther"),
         j("c02_destroy_tri_3", Q, 150, "destroy keeps every other entity's columns (3 columns incl. padded + ZST)"),
+        j("c02_destroy_tri_3", Q, 150, "same with debug assertions off (release-profile shape of force_destroy: debug_assert! bodies vanish)", debug_assertions=False),
+        J("c13_clone_destroy_on_clone_tri_3", Q, 300, what="reads in a CLONE: the clone equals the original over the whole capacity (slots, generations, dense order), so every handle reads its own entity's values in the clone too", bounds=b, assumes=a + (ISSUED,)),
         j("c02_destroy_any_tri_3", T, 150, "World::destroy(EntityAny), 3 columns"),
         j("c02_destroy_direct_tri_3", T, 150, "destroy(EntityDirect), 3 columns"),
         j("c02_destroy_other_3", T, 150, "destroy, 2 columns"),
@@ -109,6 +116,10 @@ def c02():
         j("c02_write_read_zf_2", T, 300, "every write path, ZST-first archetype"),
         j("c02_destroy_zf_3", T, 200, "destroy step, ZST-first archetype"),
         j("c02_grow_zf_2", T, 200, "growth 2->6, ZST-first archetype"),
+        j("c02_grow_al_1", Q, 150, "growth 1->4 with live values in a column whose element ALIGNMENT is 32 (above the allocator's default guarantee): every value moved bit for bit"),
+        j("c02_grow_al_2", T, 200, "growth 2->6, over-aligned column"),
+        j("c02_paths_agree_al_2", T, 250, "all read paths, over-aligned column"),
+        j("c02_destroy_al_3", T, 200, "destroy step, over-aligned column"),
     ]
 
 
@@ -149,6 +160,10 @@ def c03():
     for h in ("c03_world_unknown_contains", "c03_world_unknown_to_direct", "c03_world_unknown_destroy"):
         jobs.append(J(h, Q if h.endswith("contains") else T, 20, what="world-level call with an undeclared archetype id panics cleanly", bounds=b,
                       expect_fail=(("invalid entity type", ""),)))
+    for h in ("c03_world1_unknown_contains", "c03_world1_unknown_to_direct", "c03_world1_unknown_destroy"):
+        for dbg in (True, False):
+            jobs.append(J(h, Q if (h.endswith("contains") and not dbg) or (h.endswith("destroy") and dbg) else T, 40, what="same in a world declaring exactly ONE archetype (single-arm dispatch tables)" + ("" if dbg else " (debug assertions off)"), bounds=b,
+                          expect_fail=(("invalid entity type", ""),), debug_assertions=dbg))
     return jobs
 
 
@@ -171,8 +186,11 @@ def c04():
         j("c04_create_within_full_2", Q, 100, "failed create_within_capacity returns its argument undropped, unstored"),
         j("c04_grow_2", Q, 150, "growth neither drops nor clones"),
         j("c04_grow_0", T, 60, "growth from capacity 0"),
+        J("c02_grow_al_1", Q, 150, what="growth of a column whose element alignment is 32 moves every live value bit for bit (a value lost or duplicated by growth is never / twice dropped)", bounds=b, assumes=a),
         j("c04_clone_3", Q, 200, "clone clones each live component once; worlds own disjoint values"),
         j("c04_clone_2", T, 100, "clone N=2"),
+        j("c04_clone_from_3", Q, 300, "clone_from onto an arbitrary non-fresh target of the same capacity: the target's old values dropped exactly once, each source value cloned exactly once, nothing of the source dropped"),
+        j("c04_clone_from_2", T, 150, "clone_from N=2"),
         j("c04_iter_destroy_3", Q, 200, "ecs_iter_destroy! drops exactly the flagged ones once"),
         j("c04_iter_destroy_2", T, 100, "ecs_iter_destroy! N=2"),
         J("c04_refused_clone_2", Q, 60, what="a clone refused because a column is mutably borrowed refuses BEFORE cloning anything (no leaked clones)", bounds=b, assumes=a, expect_fail=(("placeholder message", "panic_already"),)),
@@ -204,6 +222,8 @@ def c06():
         j("c06_arch_iter_other_3", T, 150, "Archetype::iter / iter_mut, 2 columns"),
         j("c06_arch_iter_tri_4", T, 250, "Archetype::iter / iter_mut N=4"),
         j("c06_after_destroy_iter_3", Q, 200, "destroy an arbitrary entity from an arbitrary state, then ecs_iter!: exactly the survivors, once, with their own handle and components (expectation from the pre-state)"),
+        j("c06_after_destroy_iter_3", Q, 200, "same with debug assertions off (a side effect hidden inside a debug_assert! disappears in this profile)", debug_assertions=False),
+        J("c10_overflow_destroy_typed_foo_3", Q, 100, what="iteration after a destroy that PANICKED at the counter boundary: the state at the panic point satisfies Inv with every entity whole (no cell presented twice, len == live entities)", bounds=b, assumes=a + STUBS, stubbing=True, role="overflow_mid_destroy"),
         j("c06_after_destroy_slices_4", Q, 250, "same through entities() + get_slice, N=4"),
         j("c06_after_destroy_iter_borrow_3", T, 200, "same through ecs_iter_borrow!"),
         j("c06_after_destroy_arch_iter_3", T, 200, "same through Archetype::iter"),
@@ -227,6 +247,8 @@ def c07():
         j("c07_plain_step_2_1", Q, 250, "closures returning the two-valued EcsStep or (): nothing destroyed, EcsStep::Break stops without destroying"),
         j("c07_shared_2_1", Q, 300, "both archetypes matched, arbitrary decision table, capacities 2/1"),
         j("c07_shared_1_2", Q, 300, "capacities 1/2"),
+        j("c07_on_clone_2_1", Q, 350, "the pass run on a CLONE of an arbitrary state: destroys issued by the loop resolve through the clone's own slot table"),
+        j("c07_shared_1_2", T, 300, "capacities 1/2 with debug assertions off", debug_assertions=False),
         j("c07_shared_2_2", T, 600, "capacities 2/2"),
         j("c07_shared_3_1", T, 600, "capacities 3/1"),
         j("c07_tri_direct_typed_3", Q, 300, "EntityDirect<A> minted per visit designates the visited entity", role="iter_destroy_minted_direct"),
@@ -257,6 +279,8 @@ def c08():
         j("c08_monotone_destroy_foo_4", T, 150, "same, N=4"),
         j("c08_monotone_destroy_tri_2", T, 100, "same, 3 columns"),
         j("c08_cross_archetype_2_2", Q, 100, "handles of two archetypes differ"),
+        J("c12_symcap_destroy_foo_3", Q, 150, what="a destroy keeps every position's generation and the capacity whatever the capacity is (an archetype that shrank or reset on draining would issue old handles again)", bounds="capacity FIELD symbolic in N..=2^24 over a real allocation of N cells (live positions, free-list links and probes below N); growth excluded (E2 kernels growth/admission decide its arithmetic at full width)", assumes=a + (NOOVF, SYMCAP_ASSUME), allowed=SYMCAP_ALLOWED),
+        J("hist_c2_l3", Q, 120, what="bounded public-API history: every handle returned by create/create_within_capacity differs from every handle issued earlier in the history", bounds="capacity 2, 3 operations", assumes=HIST_ASSUME),
         J("c13_clone_create_on_clone_foo_3", Q, 250, what="clone keeps every generation (free positions included) so a clone never re-issues a handle the original issued before the snapshot", bounds=b, assumes=a + (NOOVF, ISSUED)),
         j("c08_overflow_slot_typed_foo_3", Q, 60, "slot generation at u32::MAX: clean panic instead of reissue", expect_fail=EXPECT_OVERFLOW),
         j("c08_overflow_slot_any_foo_2", T, 60, "same via World::destroy(EntityAny)", expect_fail=EXPECT_OVERFLOW),
@@ -283,6 +307,8 @@ def c09():
         j("c09_obtain_any_create_tri_3", T, 200, "creation after to_direct, 3 columns"),
         j("c09_obtain_typed_failed_destroy_foo_3", Q, 200, "a FAILED destroy (stale key of any kind) is no structural change: direct handles stay accepted"),
         J("c03_foreign_direct_foo_3", Q, 100, what="a direct handle carrying another archetype's id is refused by every archetype-level path", bounds=b, assumes=a, allowed=(CLEAN_DIRECT,)),
+        J("c13_clone_create_on_clone_foo_3", Q, 250, what="direct handles in a CLONE: the clone carries the original's archetype version and dense order, so a direct handle means the same entity (or is dead) in both", bounds=b, assumes=a + (ISSUED,)),
+        J("c13_clone_from_foo_3", T, 400, what="same through clone_from", bounds=b, assumes=a + (ISSUED,)),
         j("c09_step_destroy_foo_3", Q, 250, "arbitrary direct handle probed after a destroy step, all paths", role="to_direct_on_direct_key"),
         j("c09_step_create_foo_3", T, 250, "arbitrary direct handle probed after a create step", role="to_direct_on_direct_key"),
         j("c09_step_destroy_foo_4", T, 300, "destroy step N=4", role="to_direct_on_direct_key"),
@@ -319,6 +345,11 @@ def c10():
         j("c10_overflow_destroy_tokens_any_3", T, 120, "same on Drop-counting token components (ownership after the caught panic)", **ov),
         j("c10_callbacks_clone_drop_3", Q, 200, "source world intact at every Clone::clone call; no token dropped twice at any Drop::drop call"),
         j("c10_callbacks_clone_drop_2", T, 100, "same, N=2"),
+        j("c10_callbacks_clone_from_3", Q, 300, "clone_from onto a non-fresh target: at every Clone::clone call (user code that may panic) the TARGET satisfies Inv and every component readable in it is alive and stored once"),
+        j("c10_callbacks_clone_from_2", T, 150, "same, N=2"),
+        j("c10_drop_point_destroy_any_3", Q, 250, "a component's Drop running inside World::destroy(EntityAny) (user code that may panic) sees the destroy complete: Inv, target absent, others whole, the dropped value not readable"),
+        j("c10_drop_point_destroy_directany_2", T, 150, "same through World::destroy(EntityDirectAny)"),
+        j("c10_drop_point_iter_destroy_3", Q, 300, "same for the components ecs_iter_destroy! discards"),
         j("c10_conversion_point_arch_2", Q, 150, "the user's Into<Components> conversion (Archetype::create) runs on an untouched storage: inspected from inside the conversion"),
         j("c10_conversion_point_world_2", T, 150, "same through World::create"),
         j("c10_leaked_guard_destroy_any_3", Q, 150, "destroy after a guard was leaked with mem::forget: a RefCell panic inside destroy, if reachable, is replayed natively (catch_unwind + Inv/wholeness oracle)", allowed=PANIC_BORROW, native_oracle=True),
@@ -333,7 +364,8 @@ def c12():
     a = (INV_ASSUME, NOOVF)
     b = "capacity N <= 4 for steps/refill; the 2^24 limit on a hook-built state whose allocation is never touched; actually filling 2^24 cells is outside"
     def j(h, t, c, w, **kw):
-        return J(h, t, c, what=w, bounds=b, assumes=a, **kw)
+        kw.setdefault("bounds", b)
+        return J(h, t, c, what=w, assumes=a, **kw)
     return [
         j("c12_within_foo_3", Q, 100, "create_within_capacity: Ok iff len < capacity, capacity unchanged, argument returned otherwise"),
         j("c12_within_foo_0", T, 30, "same at capacity 0"),
@@ -345,6 +377,8 @@ def c12():
         j("c12_refill_foo_3", Q, 150, "refill to exactly capacity from any pattern of free positions, then refuse"),
         j("c12_refill_foo_4", T, 300, "refill N=4"),
         j("c12_refill_tri_3", T, 200, "refill, 3 columns"),
+        J("c13_clone_refill_clone_foo_3", Q, 200, what="a CLONE of an arbitrary state (free positions anywhere) keeps exact accounting: same len/capacity, refillable to exactly capacity", bounds=b, assumes=a + (ISSUED,)),
+        J("hist_c2_l3", T, 120, what="bounded public-API history: len == live entities and create_within_capacity Ok iff len < capacity after every step", bounds="capacity 2, 3 operations", assumes=HIST_ASSUME),
         j("c12_with_capacity_fill_3", Q, 100, "with_capacity(n) permits n creations without reallocation (public API only)"),
         j("c12_with_capacity_fill_1", Q, 60, "same n=1 (one-slot free list)"),
         j("c12_with_capacity_fill_2", T, 80, "same n=2"),
@@ -352,6 +386,10 @@ def c12():
         J("c12_refill_api_2", T, 100, what="same, default features", bounds=b),
         j("c12_world_capacity_mapping", Q, 100, "World::with_capacity gives every archetype its own requested capacity (symbolic 0..2 each) in a world whose explicit ids are not monotone in declaration order; that many creations fit without growing"),
         j("c12_zero_capacity", Q, 40, "capacity 0: refuse within capacity, grow on create"),
+        j("c12_symcap_destroy_foo_3", Q, 150, "capacity independence: destroy with the capacity field an ARBITRARY value in N..=2^24 behaves exactly as at capacity N (capacity unchanged, len-1, every generation kept, free list exact)", bounds="capacity FIELD symbolic in N..=2^24 over a real allocation of N cells (live positions, free-list links and probes below N); growth excluded (E2 kernels growth/admission decide its arithmetic at full width)", allowed=SYMCAP_ALLOWED),
+        j("c12_symcap_within_foo_3", Q, 150, "capacity independence: create_within_capacity at an arbitrary capacity in N..=2^24", bounds="capacity FIELD symbolic in N..=2^24 over a real allocation of N cells (live positions, free-list links and probes below N); growth excluded (E2 kernels growth/admission decide its arithmetic at full width)", allowed=SYMCAP_ALLOWED),
+        j("c12_symcap_destroy_foo_1", T, 60, "same, the destroy that empties a one-entity archetype", bounds="capacity FIELD symbolic in N..=2^24 over a real allocation of N cells (live positions, free-list links and probes below N); growth excluded (E2 kernels growth/admission decide its arithmetic at full width)", allowed=SYMCAP_ALLOWED),
+        j("c12_symcap_destroy_tri_2", T, 150, "same, 3 columns", bounds="capacity FIELD symbolic in N..=2^24 over a real allocation of N cells (live positions, free-list links and probes below N); growth excluded (E2 kernels growth/admission decide its arithmetic at full width)", allowed=SYMCAP_ALLOWED),
         j("c12_limit_within_capacity", Q, 20, "create_within_capacity at the 2^24 limit refuses, nothing changes"),
         j("c12_limit_create_panics", Q, 20, "create at the 2^24 limit panics 'capacity overflow'", expect_fail=(("capacity overflow", "push"),)),
         j("c12_limit_with_capacity_panics", Q, 20, "with_capacity beyond 2^24 panics", expect_fail=(("capacity may not exceed", "with_capacity"),)),
@@ -373,6 +411,9 @@ def c13():
         j("c13_clone_create_on_orig_tri_2", T, 250, "growth of the original after cloning"),
         j("c13_clone_recycle_on_orig_other_2", T, 200, "2-column archetype"),
         j("c13_clone_foo_0", T, 40, "clone of a capacity-0 archetype"),
+        j("c13_clone_from_foo_3", Q, 400, "clone_from onto an ARBITRARY target state of the same capacity (world and archetype level): target == source over the whole capacity, source untouched, the source's handles resolve in the target"),
+        j("c13_clone_from_foo_2", T, 200, "clone_from N=2, all lookup paths"),
+        j("c13_clone_from_tri_2", T, 400, "clone_from, 3 columns"),
         j("c13_clone_two_archetypes_2_3", Q, 150, "two populated archetypes: each archetype of the clone equals the same archetype of the original; with_capacity maps capacities per archetype"),
         J("c17_clear_arch_clone_2", Q, 250, what="feature events: the clone carries the same pending created/destroyed events; clearing one side does not clear the other",
           bounds=b, assumes=a, features=("events",)),
@@ -391,6 +432,8 @@ def c05_e1():
     b3 = "world of 3 archetypes each owning exactly one member of an arity-3 OneOf (at different column positions) plus a shared component; populations <= 1 per archetype"
     for h, t in (("c05_one_of3_iter_first", Q), ("c05_one_of3_iter_borrow_middle", Q), ("c05_one_of3_iter_mut_between", T), ("c05_one_of3_find", Q), ("c05_one_of3_find_borrow", T), ("c05_one_of3_iter_destroy", T)):
         jobs.append(Job(harness="c05::three::" + h, tier=t, cost=150, what="arity-3 OneOf at the first / middle / last position of the parameter list: bound to the archetype's own member column, the plain parameter to its own", bounds=b3, assumes=a))
+    for h, t in (("c05_two_filters_iter", Q), ("c05_two_filters_find", Q), ("c05_two_filters_iter_borrow", T), ("c05_two_filters_iter_destroy", T)):
+        jobs.append(Job(harness="c05::three::" + h, tier=t, cost=150, what="two OneOf parameters used purely as filters and therefore both named `_` (the only name a closure may repeat): the query acts on exactly the archetypes satisfying BOTH", bounds=b3, assumes=a))
     jobs.append(J("c16_iter_destroy_cfg_component", Q, 100, what="ecs_iter_destroy! with a cfg-disabled component parameter acts on every archetype the erased query matches", bounds=b, assumes=a))
     jobs.append(J("c16_query_cfg_mixed_predicates", T, 150, what="all five macros with cfg-decorated parameters", bounds=b, assumes=a))
     return jobs
@@ -403,10 +446,11 @@ def c11():
     ok = ["c11_ok_slice_s_tri_p", "c11_ok_slice_m_tri_p", "c11_ok_slice_m_tri_pad", "c11_ok_slice_s_other_q", "c11_ok_slice_m_other_p",
           "c11_ok_comp_s_tri_pad", "c11_ok_comp_m_tri_p", "c11_ok_comp_m_other_q", "c11_ok_comp_s_other_p",
           "c11_ok_find_s_tri_p", "c11_ok_find_m_tri_pad", "c11_ok_find_m_other_p", "c11_ok_find_s_other_q",
-          "c11_ok_iter_s_tri_pad", "c11_ok_iter_m_tri_p", "c11_ok_iter_m_other_q", "c11_ok_iter_s_other_p"]
-    quick_ok = {"c11_ok_slice_m_tri_p", "c11_ok_comp_m_other_q", "c11_ok_find_m_tri_pad", "c11_ok_iter_m_tri_p", "c11_ok_iter_s_other_p"}
+          "c11_ok_iter_s_tri_pad", "c11_ok_iter_m_tri_p", "c11_ok_iter_m_other_q", "c11_ok_iter_s_other_p",
+          "c11_ok_findd_s_tri_p", "c11_ok_findd_m_other_q", "c11_ok_findd_s_other_p"]
+    quick_ok = {"c11_ok_slice_m_tri_p", "c11_ok_comp_m_other_q", "c11_ok_find_m_tri_pad", "c11_ok_iter_m_tri_p", "c11_ok_iter_s_other_p", "c11_ok_findd_s_tri_p", "c11_ok_findd_s_other_p"}
     for h in ok:
-        jobs.append(J(h, Q if h in quick_ok else T, 200, what="outer access held open, ARBITRARY non-conflicting inner access (33 cells at once) succeeds with right values", bounds=b, assumes=a))
+        jobs.append(J(h, Q if h in quick_ok else T, 200, what="outer access held open, ARBITRARY non-conflicting inner access (41 cells at once, incl. ecs_find_borrow! keyed by direct handles) succeeds with right values", bounds=b, assumes=a))
     rel = ["c11_released_slice_m_tri_p", "c11_released_comp_m_other_q", "c11_released_find_m_tri_pad", "c11_released_iter_m_other_p",
            "c11_released_slice_s_tri_pad", "c11_released_find_s_other_p"]
     for i, h in enumerate(rel):
@@ -415,7 +459,8 @@ def c11():
     src = open(os.path.join(os.path.dirname(os.path.dirname(os.path.abspath(__file__))), "kani_gecs", "src", "c11.rs")).read()
     cells = re.findall(r"^\s*(c11_panic_\w+):", src, re.M)
     quick_p = {"c11_panic_slice_m_slice_s", "c11_panic_comp_s_comp_m", "c11_panic_find_m_find_m", "c11_panic_iter_s_iter_m",
-               "c11_panic_slice_m_clone", "c11_panic_iter_m_clone", "c11_panic_find_s_comp_m", "c11_panic_comp_m_iter_m"}
+               "c11_panic_slice_m_clone", "c11_panic_iter_m_clone", "c11_panic_find_s_comp_m", "c11_panic_comp_m_iter_m",
+               "c11_panic_findd_m_findd_s", "c11_panic_iter_s_findd_m"}
     jobs.append(J("c11b_panic_clone_outer_mut_same_column", Q, 40, what="clone as the OUTER access: a mutable borrow of the same column made from inside a component's Clone impl panics", bounds=b, assumes=a, expect_fail=PANIC_BORROW))
     jobs.append(J("c11b_panic_clone_outer_mut_other_column", T, 40, what="clone as the OUTER access: mutable borrow of another column of the archetype being cloned panics", bounds=b, assumes=a, expect_fail=PANIC_BORROW))
     for h, t in (("c11b_empty_outer_mut_inner_shared", Q), ("c11b_empty_outer_shared_inner_mut", T), ("c11b_empty_outer_mut_inner_typed", T)):
@@ -477,6 +522,14 @@ def c17():
         j("c17_clear_destroy_only_world_2", T, 200, "same at world level"),
         j("c17_world_iter_created", Q, 150, "World::iter_created = concatenation over archetypes, exact size_hint at every position"),
         j("c17_world_iter_destroyed", T, 200, "World::iter_destroyed"),
+        Job(harness="c17big::c17big_world_iter_created", tier=Q, cost=400, what="a world declaring the MAXIMUM of 256 archetypes: the world-level iterator (u8 archetype cursor) driven past its end yields exactly the logged handles, then None, with exact size_hint", bounds="256 archetypes, events in a symbolic subset of {first, 128th, last}", assumes=(), features=("events", "big_world"), timeout=2400),
+        Job(harness="c17big::c17big_world_iter_destroyed", tier=T, cost=400, what="same for iter_destroyed", bounds="256 archetypes", assumes=(), features=("events", "big_world"), timeout=2400),
+        j("c17_world_iter_nth_created", Q, 300, "Iterator::nth (which an implementation could override to skip whole archetypes) on World::iter_created after a steps: same item as stepping with next(), exact size_hint afterwards, for jumps ending inside a log, exactly at its end, over empty logs, past the end"),
+        j("c17_world_iter_nth_destroyed", T, 300, "same on World::iter_destroyed"),
+        j("c17_world_iter_skip_created", Q, 300, "Iterator::skip on World::iter_created"),
+        j("c17_world_iter_count_created", T, 300, "count() and skip().count()"),
+        j("c17_world_iter_last_destroyed", T, 300, "last()"),
+        j("c17_world_iter_for_each_created", T, 300, "for_each()/fold(): same items, same order as stepping"),
     ]
 
 
@@ -521,6 +574,11 @@ def c19():
                 jobs.append(Job(harness=h, tier=tier, cost=cost, features=fs, debug_assertions=dbg, allowed=tuple(al), expect_fail=tuple(exp),
                                 what="core harness re-decided under features=%s debug_assertions=%s" % ("+".join(fs) or "default", dbg), bounds=b,
                                 assumes=(INV_ASSUME, "feature c32 of the harness crate = gecs feature 32_components")))
+    # the 256-archetype boundary of the generated world-level event iterator (u8 cursor): profile-dependent arithmetic
+    jobs.append(Job(harness="c17big::c17big_world_iter_created", tier=Q, cost=400, features=("events", "big_world"), timeout=2400,
+                    what="events + a world declaring all 256 archetypes, overflow checks on: draining World::iter_created ends with None (no arithmetic panic at the u8 cursor's boundary)", bounds="256 archetypes", assumes=()))
+    jobs.append(Job(harness="c17big::c17big_world_iter_destroyed", tier=T, cost=400, features=("events", "big_world"), debug_assertions=False, timeout=2400,
+                    what="same for iter_destroyed with debug assertions off", bounds="256 archetypes", assumes=()))
     return jobs
 
 
